@@ -567,20 +567,20 @@ def module_code(idx, d, text, info, skip_typed=None):
             A(f'    let e = rt::hook("{kind}", "{name}", rt::sname::<S>(), rt::cid(&self.ctx), None, {pid}, self.slots_text()); {susp}')
             A(('    let _ = &e.w; }' if shared else '    self.apply_write(&e.w); }') + (' }' if asy else ''))
         elif asy:
-            A(f"  fn {name}<'a>(&'a self, stage: AroundStage) -> impl ::core::future::Future<Output = AroundOutcome<{first}>> + 'a {{ rt::enter(\"{name}\"); async move {{")
+            A(f"  fn {name}<'a>(&'a self, stage: AroundStage) -> impl ::core::future::Future<Output = AroundOutcome<self::{first}>> + 'a {{ rt::enter(\"{name}\"); async move {{")
             A('    let kind = match stage { AroundStage::Before => "ab", AroundStage::AfterSuccess => "aa" };')
             A(f'    let e = rt::hook(kind, "{name}", rt::sname::<S>(), rt::cid(&self.ctx), None, None, self.slots_text()); {susp}')
             A('    match e.a { None => AroundOutcome::Proceed, Some(ab) => AroundOutcome::Abort(TransitionError {')
-            A(f'      from: {first}, event: "harness", kind: match ab {{')
+            A(f'      from: self::{first}, event: "harness", kind: match ab {{')
             A('        rt::Abort::G(n) => TransitionErrorKind::GuardFailed { guard: rt::leak(&n) },')
             A('        rt::Abort::A(n) => TransitionErrorKind::ActionFailed { action: rt::leak(&n) },')
             A('        rt::Abort::I => TransitionErrorKind::InvalidTransition } }) } } }')
         else:
-            A(f'  {afn} {name}(&self, stage: AroundStage) -> AroundOutcome<{first}> {{')
+            A(f'  {afn} {name}(&self, stage: AroundStage) -> AroundOutcome<self::{first}> {{')
             A('    let kind = match stage { AroundStage::Before => "ab", AroundStage::AfterSuccess => "aa" };')
             A(f'    let e = rt::hook(kind, "{name}", rt::sname::<S>(), rt::cid(&self.ctx), None, None, self.slots_text()); {susp}')
             A('    match e.a { None => AroundOutcome::Proceed, Some(ab) => AroundOutcome::Abort(TransitionError {')
-            A(f'      from: {first}, event: "harness", kind: match ab {{')
+            A(f'      from: self::{first}, event: "harness", kind: match ab {{')
             A('        rt::Abort::G(n) => TransitionErrorKind::GuardFailed { guard: rt::leak(&n) },')
             A('        rt::Abort::A(n) => TransitionErrorKind::ActionFailed { action: rt::leak(&n) },')
             A('        rt::Abort::I => TransitionErrorKind::InvalidTransition } }) } }')
